@@ -15,7 +15,7 @@ RULES = {
     "M5": "filled list: add_filled_order_id(x) occurs exactly on paths where a transaction was emitted and the maker is not put back (neither pushed nor parked), once, with x = id of the popped order",
     "M6": "MatchResult::add_transaction agrees with the reference: remaining' = remaining.saturating_sub(t.quantity), is_complete' = (remaining' == 0), the transaction is appended; executed_quantity sums .quantity over the same list",
     "M7": "lifetime bound, static part: every fill lowers display+hidden of the re-queued value by exactly the fill (C05 conservation) and the level ledger balances (C01 L1 on match_order)",
-    "M0": "coverage: iteration paths with and without a transaction exist",
+    "M0": "coverage: iteration paths with and without a transaction exist; Transaction::new / add_transaction / add_filled_order_id are called only in match_order and its callees",
 }
 
 
@@ -51,6 +51,18 @@ def run(ctx, chk):
         v = r.facts.variant.get(("val", ("obj", ("param", 1))))
         chk.require(ok, "M1", "%s:%s" % (ma.defp, v), ma.span, "consumed(%s) + remaining(%s) != incoming (%s)" % (short(c), short(rem), why), describe_path(r))
     chk.require(nret >= 14, "M0", ma.defp + ":paths", ma.span, "only %d return paths" % nret)
+
+    # ---------------- M0: nobody but match_order (and what it calls) emits transactions or fills the result lists
+    b0 = L.paths("match_order")[0]
+    reach = set(ctx.cg.reach([b0.defp]))
+    n_sites = 0
+    for d, effs in ctx.cg.direct.items():
+        for c, m, bb, callee, span in effs:
+            if (c, m) in (("TX", "new"), ("RES", "add_transaction"), ("RES", "add_filled_order_id")):
+                n_sites += 1
+                chk.require(d in reach, "M0", "%s:%s.%s:outside-match_order" % (d, c, m), span,
+                            "%s.%s is called in %s, which match_order does not reach: executions produced there are not covered by M2-M5" % (c, m, d))
+    chk.require(n_sites >= 3, "M0", "emission-sites", b0.span, "only %d Transaction::new / add_transaction / add_filled_order_id sites found" % n_sites)
 
     # ---------------- M2..M5 on match_order
     b, res, stats = L.paths("match_order")
@@ -212,3 +224,29 @@ def run(ctx, chk):
             for role in ("visible", "hidden"):
                 ok, why = prove_zero(d[role].add(qd[role], -1), r.facts)
                 chk.require(ok, "M7", "%s:%s" % (fn, role), b.span, "a fill is not reflected in the re-queued order: %s delta %r vs queue delta %r" % (role, d[role], qd[role]), describe_path(r))
+    # other discovered mutators (a new top-up / requeue / restore style API): an order taken out and put back under the
+    # same id must not come back with more display+hidden than it had (quantity only grows through update_order's amend)
+    from ..terms import prove_nonneg
+    for name in L.mutators():
+        if "::" not in name:
+            continue
+        bx, resx, _ = L.paths(name)
+        for r in resx:
+            if r.kind not in ("return", "backedge") or r.flags:
+                continue
+            for segname, lo, hi in segments(r):
+                ids = set(id(e) for e in r.trace[lo:hi])
+                qev = [x for x in L.queue_events(r.trace, r.facts) if id(x[2]) in ids]
+                taken = [o for k, o, e in qev if k == "take"]
+                for k, o, e in qev:
+                    if k not in ("push", "park"):
+                        continue
+                    for t in taken:
+                        if not LR.same_id(L.R, t, o, r.facts):
+                            continue
+                        tot_t = affine(L.R.role(t, r.facts, "display")).add(affine(L.R.role(t, r.facts, "reserve")))
+                        tot_o = affine(L.R.role(o, r.facts, "display")).add(affine(L.R.role(o, r.facts, "reserve")))
+                        ok, why = prove_nonneg(tot_t.add(tot_o, -1), r.facts)
+                        chk.require(ok, "M7", "%s:%s:lifetime" % (bx.defp, LR.first_label(r)), e[5],
+                                    "%s puts an order back with display+hidden %r where it had %r: not provably <= (an order must never be able to trade more than it brought; %s)" % (
+                                        bx.name, tot_o, tot_t, why), describe_path(r))
